@@ -246,6 +246,16 @@ impl<'tcx> Ctx<'tcx> {
             },
             ConstValue::Scalar(rustc_middle::mir::interpret::Scalar::Ptr(ptr, _)) => {
                 // &[u8; N] byte strings (format_args templates) and &'static T
+                {
+                    let (prov, _off) = ptr.prov_and_relative_offset();
+                    if let Some(rustc_middle::mir::interpret::GlobalAlloc::Static(sdid)) =
+                        tcx.try_get_global_alloc(prov.alloc_id())
+                    {
+                        fields.push(("k", J::s("static")));
+                        fields.push(("path", J::s(dps(tcx, sdid))));
+                        done = true;
+                    }
+                }
                 if let ty::Ref(_, inner, _) = ty.kind() {
                     if let ty::Array(elem, n) = inner.kind() {
                         if *elem == tcx.types.u8 {
